@@ -123,6 +123,9 @@ pub mod repofile;
 pub(crate) mod repository;
 /// Virtual File System support - allows to act on the repository like on a file system
 pub mod vfs;
+/// Hooks for external verification harnesses (compiled only with `--cfg rustic_rs_rustic_core_verif`)
+#[cfg(rustic_rs_rustic_core_verif)]
+pub mod verif_hooks;
 
 // re-export jiff
 pub use jiff;
